@@ -203,6 +203,110 @@ def runtime_facts(rep: C.Report) -> None:
         ob2.detail += f"{type(e).__name__}: {e}"
 
 
+ALLOWED_HOST_EXPRS = {"debug.traceback", "os.clock", "os.date", "os.difftime", "os.time"}
+HOST_ROOTS = ("io", "os", "package", "debug", "python", "_G")
+HOST_NAMES = {"load", "loadstring", "dofile", "loadfile", "getfenv", "setfenv", "require", "module", "newproxy", "collectgarbage"}
+CAP_PROBE = r"""
+local p = {}
+function p.probe(frame)
+  local f = _G[frame.args[1]]
+  if f == nil then return "ABSENT" end
+  if type(f) == "table" then
+    local ks = {}
+    for k, _ in pairs(f) do ks[#ks + 1] = tostring(k) end
+    table.sort(ks)
+    return "TABLE:" .. table.concat(ks, ","):sub(1, 100)
+  end
+  if type(f) ~= "function" then return "TYPE:" .. type(f) end
+  local out = {}
+  -- debug.sethook-like: install a line hook and see whether it fires
+  local n = 0
+  local ok = pcall(f, function() n = n + 1 end, "l")
+  local x = 0
+  for i = 1, 5 do x = x + i end
+  pcall(f)
+  if ok and n > 0 then out[#out + 1] = "HOOK:" .. tostring(n) end
+  -- io.open / loadstring / os.getenv-like
+  local ok2, r2 = pcall(f, "/etc/hostname")
+  if ok2 and type(r2) == "userdata" then out[#out + 1] = "FILE" end
+  local ok3, r3 = pcall(f, "return 41 + 1")
+  if ok3 and type(r3) == "function" then local ok4, v = pcall(r3); if ok4 and v == 42 then out[#out + 1] = "COMPILES" end end
+  local ok5, r5 = pcall(f, "PATH")
+  if ok5 and type(r5) == "string" and r5:find("/") then out[#out + 1] = "ENV" end
+  if #out == 0 then return "NOTHING" end
+  return table.concat(out, ",")
+end
+return p
+"""
+
+
+def env_whitelist(rep: C.Report) -> None:
+    """Ob5: no entry of the sandbox environment is (an alias of) a host capability.  Facts read from the current Lua source:
+    env["k"] = v assignments inside _lua_reset_env, and `local a = <expr>` aliases; a value is a host capability if, after
+    resolving aliases, it is io.* / os.* / package.* / debug.* / python.* (except the five documented harmless functions), one
+    of load/loadstring/dofile/loadfile/getfenv/setfenv/..., or one of those tables itself.  Finite z3 query over the exported
+    keys; a hit is replayed in the real sandbox by a behavioural probe (does the exported function install a hook, open a
+    file, compile code, read the host environment?)."""
+    ob = rep.add(C.Ob("Ob5 the sandbox environment exports no (alias of a) host capability", "z3 over facts read from the current Lua source (finite) + behavioural replay in the real sandbox", ["lua/_sandbox_phase1.lua:_lua_reset_env"], "all env[...] assignments, aliases resolved transitively"))
+    try:
+        src = open(os.path.join(C.SRC, "lua", "_sandbox_phase1.lua")).read()
+        code = "\n".join(line.split("--")[0] for line in src.splitlines())
+        exports = re.findall(r'env\["([A-Za-z_][A-Za-z0-9_]*)"\]\s*=\s*([A-Za-z_][A-Za-z0-9_.]*)', code)
+        aliases = dict(re.findall(r"^\s*local\s+([A-Za-z_][A-Za-z0-9_]*)\s*=\s*([A-Za-z_][A-Za-z0-9_.]*)\s*$", code, flags=re.M))
+        # names defined as Lua functions or table constructors are not aliases
+        defined = set(re.findall(r"function\s+([A-Za-z_][A-Za-z0-9_]*)\s*\(", code)) | set(re.findall(r"^\s*local\s+([A-Za-z_][A-Za-z0-9_]*)\s*=\s*\{", code, flags=re.M))
+        if not exports:
+            ob.verdict, ob.detail = C.NOT_ENCODABLE, "no env[...] assignments found"
+            return
+
+        def resolve(v, depth=0):
+            while v in aliases and v not in defined and depth < 10:
+                v = aliases[v]
+                depth += 1
+            return v
+
+        def capability(expr):
+            if expr in ALLOWED_HOST_EXPRS:
+                return False
+            root = expr.split(".")[0]
+            return root in HOST_ROOTS or expr in HOST_NAMES
+
+        keys = [k for k, _ in exports]
+        resolved = {k: resolve(v) for k, v in exports}
+        # "env" itself as _G is the sandbox table, `env["_G"] = env`
+        caps = {k: resolved[k] for k in keys if resolved[k] != "env" and capability(resolved[k]) and k not in ("require",)}
+        i = z3.Int("i")
+        s = z3.Solver()
+        s.add(i >= 0, i < len(keys))
+        s.add(z3.Or(*[i == keys.index(k) for k in caps]) if caps else z3.BoolVal(False))
+        r = str(s.check())
+        ob.queries = ob.paths = ob.conditions = 1
+        ob.samples.append({"exported_keys": len(keys), "resolved_host_expressions": {k: v for k, v in resolved.items() if "." in v or v in HOST_NAMES}, "capabilities": caps})
+        if r == "unsat":
+            ob.verdict = C.DISCHARGED
+            ob.confirmed_conditions = 1
+            return
+        key = keys[s.model()[i].as_long()]
+        from vf.wtpfix import new_ctx, close
+
+        w = new_ctx(modules={"vfcap": CAP_PROBE})
+        w.start_page("T")
+        try:
+            got = w.expand("{{#invoke:vfcap|probe|%s}}" % key)
+        except Exception as e:  # noqa: BLE001
+            got = f"EXC {type(e).__name__}"
+        close(w)
+        ob.samples.append({"z3_witness": key, "resolves_to": resolved[key], "behavioural_probe": got})
+        if got.startswith(("HOOK", "FILE", "COMPILES", "ENV", "TABLE")) or any(t in got for t in ("HOOK", "FILE", "COMPILES", "ENV")):
+            v = rep.violation(f"Lua global {key} inside #invoke (bound to host {resolved[key]})", f"sandboxed code holds a host capability: probe result {got}", {"key": key})
+            ob.verdict = C.VIOLATED if v.known is None else C.KNOWN
+            ob.confirmed_conditions = 1
+        else:
+            ob.detail = f"env[{key!r}] resolves to host expression {resolved[key]!r} but the behavioural probe shows nothing ({got}) -> inconclusive"
+    except Exception as e:  # noqa: BLE001
+        ob.detail += f"{type(e).__name__}: {e}"
+
+
 def invoke_probe(fn: str, arg: str) -> str:
     from vf.wtpfix import new_ctx, close
 
@@ -238,7 +342,7 @@ def run(rep: C.Report) -> None:
         "is both kept loaded by the host and served by require(); (4) an AST fact about the LuaRuntime construction. Counterexamples are replayed through the real sandbox (#invoke of a probe module)."
     )
     rep.assumptions += ["Lua replays boot the sandbox with a stub for the absent Scribunto ustring submodule", "pathlib join semantics: an absolute right operand discards the left one; '..' components are not resolved lexically"]
-    rep.outside += ["everything executed inside the Lua VM: the environment whitelist of _lua_reset_env, metatables, string.dump/loadstring reachability - a mutant adding env['io'] = io is NOT detected", "symlinks below the package directory"]
+    rep.outside += ["everything executed inside the Lua VM: metatables, closures capturing host values, what the exported Lua functions do internally - only direct (aliased) exports of host capabilities are decided", "symlinks below the package directory"]
     rep.trusted += ["CrossHair 0.0.110", "z3", "vf/slicer.py", "lupa (fresh runtime for package.loaded)"]
     try:
         src = open(H).read() + "\n" + gen(quick)
@@ -257,6 +361,7 @@ def run(rep: C.Report) -> None:
     except Exception as e:  # noqa: BLE001
         rep.add(C.Ob("Ob1/Ob2 gates", "E1 CrossHair", [], "", verdict=C.NOT_ENCODABLE, detail=f"{type(e).__name__}: {e}"))
     runtime_facts(rep)
+    env_whitelist(rep)
 
 
 def replay(r: dict) -> int:
